@@ -64,6 +64,9 @@ type xObs struct {
 type blockedProbe struct {
 	hash uint64
 	done chan *xOp
+	// noDrop: the jobs' metric relabeling had no drop rule when this probe started (what the scrape manager was last given,
+	// as the harness knows it - not as the probe's JobInfo says)
+	noDrop bool
 }
 
 type xWorld struct {
@@ -73,6 +76,7 @@ type xWorld struct {
 	// real: the explorer's own probe function (request, decoding, stream parser, sample statistics); the scripted
 	// outcome of a probe is then played on the wire by probeRT instead of being handed back directly
 	real func(log logrus.FieldLogger, info *scrape.JobInfo, url string) (*scrape.StatisticsSeriesResult, error)
+	noDrop bool
 }
 
 // probeRT plays one scripted probe outcome as an HTTP exchange: success = a complete exposition with op.Scraped samples
@@ -139,15 +143,14 @@ func (w *xWorld) probe(log logrus.FieldLogger, info *scrape.JobInfo, url string)
 	fmt.Sscanf(url[i+3:], "%d", &h)
 	bp := &blockedProbe{hash: h, done: make(chan *xOp, 1)}
 	w.mu.Lock()
+	bp.noDrop = w.noDrop
 	w.blocked = append(w.blocked, bp)
 	w.started[h]++
 	w.mu.Unlock()
 	op := <-bp.done
 	if w.real != nil && info != nil && info.Config != nil {
-		cfg := *info.Config
-		cfg.MetricRelabelConfigs = []*relabel.Config{{SourceLabels: model.LabelNames{"__name__"}, Separator: ";",
-			Regex: relabel.MustNewRegexp("dropme"), Action: relabel.Drop}}
-		return w.real(log, &scrape.JobInfo{Config: &cfg, Cli: &http.Client{Transport: &probeRT{op: op}}}, url)
+		// the job's configuration as the scrape manager hands it out, only the connection is scripted
+		return w.real(log, &scrape.JobInfo{Config: info.Config, Cli: &http.Client{Transport: &probeRT{op: op}}}, url)
 	}
 	if op == nil || !op.OK {
 		return nil, fmt.Errorf("scripted probe failure")
@@ -189,10 +192,18 @@ func (w *xWorld) settle() {
 	}
 }
 
-func xJobCfg(names []string) *prom.ConfigInfo {
+func xJobCfg(names []string) *prom.ConfigInfo { return xJobCfgRule(names, false) }
+
+// xJobCfgRule: every job drops the samples of metric `dropme` after the scrape, unless noDrop
+func xJobCfgRule(names []string, noDrop bool) *prom.ConfigInfo {
 	c := &config.Config{}
 	for _, n := range names {
-		c.ScrapeConfigs = append(c.ScrapeConfigs, &config.ScrapeConfig{JobName: n, ScrapeTimeout: model.Duration(3 * time.Second), Scheme: "http", MetricsPath: "/metrics"})
+		sc := &config.ScrapeConfig{JobName: n, ScrapeTimeout: model.Duration(3 * time.Second), Scheme: "http", MetricsPath: "/metrics"}
+		if !noDrop {
+			sc.MetricRelabelConfigs = []*relabel.Config{{SourceLabels: model.LabelNames{"__name__"}, Separator: ";",
+				Regex: relabel.MustNewRegexp("dropme"), Action: relabel.Drop}}
+		}
+		c.ScrapeConfigs = append(c.ScrapeConfigs, sc)
 	}
 	return &prom.ConfigInfo{Config: c}
 }
@@ -220,8 +231,10 @@ func exploreRun(in interface{}) (string, interface{}, map[string]int) {
 	var seen []xObs
 	var opsT, obsT []string
 	st := map[string]int{"ops": len(c.Ops)}
+	jobinfos := 0
 	for _, op := range c.Ops {
 		ob := xObs{}
+		doneNoDrop := false
 		switch op.Kind {
 		case "get":
 			rt := e.Get(op.Hash)
@@ -243,12 +256,19 @@ func exploreRun(in interface{}) (string, interface{}, map[string]int) {
 		case "apply":
 			_ = e.ApplyConfig(xJobCfg(op.Cfg))
 		case "jobinfo": // the scrape manager is reloaded alone: from now on it has a client for exactly these jobs
-			_ = sm.ApplyConfig(xJobCfg(op.Cfg))
+			// ... and every second reload changes the jobs' metric relabeling (the http client settings stay the same)
+			jobinfos++
+			w.mu.Lock()
+			w.noDrop = jobinfos%2 == 1
+			nd := w.noDrop
+			w.mu.Unlock()
+			_ = sm.ApplyConfig(xJobCfgRule(op.Cfg, nd))
 		case "done":
 			w.mu.Lock()
 			for i, b := range w.blocked {
 				if b.hash == op.Hash {
 					o := op
+					doneNoDrop = b.noDrop
 					b.done <- &o
 					w.blocked = append(w.blocked[:i:i], w.blocked[i+1:]...)
 					break
@@ -302,7 +322,12 @@ func exploreRun(in interface{}) (string, interface{}, map[string]int) {
 			t = "XJobInfo " + cList(js)
 		case "done":
 			if op.OK {
-				t = fmt.Sprintf("XDone %s (POk %s %s)", cN(op.Hash), cZ(op.Scraped), cZ(op.Total))
+				kept := op.Scraped
+				if doneNoDrop { // no drop rule when the probe started: every sample of the payload counts
+					kept = op.Total
+					st["probes_without_drop_rule"]++
+				}
+				t = fmt.Sprintf("XDone %s (POk %s %s)", cN(op.Hash), cZ(kept), cZ(op.Total))
 			} else {
 				t = fmt.Sprintf("XDone %s PFail", cN(op.Hash))
 			}
